@@ -29,7 +29,7 @@ try:
         demo_dest = ''
 
     demo_cmd = meta.get('demo_cmd') or open(seed + '/demo_cmd.txt').read().strip().splitlines()[-1]
-    demo_files = [f for f in os.listdir(seed) if f not in ('patch.diff', 'meta.json', 'demo_cmd.txt', 'README', 'README.md', 'unit_with_patch.txt') and not f.endswith('.txt')]
+    demo_files = [f for f in os.listdir(seed) if f not in ('patch.diff', 'meta.json', 'demo_cmd.txt', 'README', 'README.md', 'unit_with_patch.txt', 'eval.json', 'eval.err') and not f.endswith('.txt')]
     def place_demo():
         for f in demo_files:
             dest = demo_dest if (demo_dest and len(demo_files) == 1 and os.path.splitext(demo_dest)[1] == os.path.splitext(f)[1]) else os.path.join(os.path.dirname(demo_dest or ''), f)
